@@ -1,6 +1,7 @@
 package canvas
 
 import (
+	"image/color"
 	"math"
 	"reflect"
 
@@ -252,4 +253,52 @@ func VH_C14_coordsystem_Q() {
 	got := c.CoordSystemView().Dot(p)
 	exp := vhC15CSV(cs, w, h, p)
 	vAssert("C14.coordsystem.view", got.X == exp.X && got.Y == exp.Y)
+}
+
+// C14-H6 (gradient evaluation, colors.go): Stops.At(t) is the gradient: the colour of the first
+// stop up to its offset, linear interpolation between consecutive stops, the colour of the last
+// stop from its offset on.  Stop offsets from tables (with and without stops at 0 and 1), opaque
+// palette colours, t symbolic in [0,1]; channels compared within 1/255 plus the 8-bit truncation.
+var vhC14GOffsets = [][]float64{{0, 1}, {0.25, 0.75}, {0, 0.5}, {0.5, 1}, {0, 0.3, 1}, {0.2, 0.5, 0.9}, {0, 0.25, 0.5, 1}}
+var vhC14GColors = []color.RGBA{{255, 0, 0, 255}, {0, 0, 255, 255}, {0, 255, 0, 255}, {255, 255, 0, 255}}
+
+func VH_C14_gradient_stops_Q() {
+	offs := vhC14GOffsets[vChoose(0, len(vhC14GOffsets)-1)]
+	rot := vChoose(0, len(vhC14GColors)-1)
+	stops := Stops{}
+	for i, o := range offs {
+		stops.Add(o, vhC14GColors[(i+rot)%len(vhC14GColors)])
+	}
+	t := vNondetF64()
+	vAssume(0 <= t && t <= 1)
+	for _, o := range offs {
+		vAssume(t == o || t-o >= 1e-6 || o-t >= 1e-6)
+	}
+	got := stops.At(t)
+	ch := func(c color.RGBA) [4]float64 {
+		return [4]float64{float64(c.R), float64(c.G), float64(c.B), float64(c.A)}
+	}
+	var want [4]float64
+	switch {
+	case t <= stops[0].Offset:
+		want = ch(stops[0].Color)
+	case t >= stops[len(stops)-1].Offset:
+		want = ch(stops[len(stops)-1].Color)
+	default:
+		for i := 0; i+1 < len(stops); i++ {
+			if stops[i].Offset <= t && t < stops[i+1].Offset {
+				u := (t - stops[i].Offset) / (stops[i+1].Offset - stops[i].Offset)
+				a, b := ch(stops[i].Color), ch(stops[i+1].Color)
+				for k := 0; k < 4; k++ {
+					want[k] = a[k] + u*(b[k]-a[k])
+				}
+			}
+		}
+	}
+	g := ch(got)
+	// one query per channel
+	vAssert("C14.gradient.stops_at_is_the_gradient.r", g[0]-want[0] <= 1.5 && want[0]-g[0] <= 1.5)
+	vAssert("C14.gradient.stops_at_is_the_gradient.g", g[1]-want[1] <= 1.5 && want[1]-g[1] <= 1.5)
+	vAssert("C14.gradient.stops_at_is_the_gradient.b", g[2]-want[2] <= 1.5 && want[2]-g[2] <= 1.5)
+	vAssert("C14.gradient.stops_at_is_the_gradient.a", g[3]-want[3] <= 1.5 && want[3]-g[3] <= 1.5)
 }
